@@ -31,10 +31,10 @@ def run(ctx):
         cfgp = pc.mc_cfg('pit-B', 'v2', 2, 2, 'small', 'v2two', invs=[], props=[])
         for front, vmap in (('v2', None), ('legacy', {'PASS': 'T', 'FAIL': 'F'})):
             pc.stage_b(ctx, front, cfgp, 'small 2 entries MaxT=2', devs=DEVS[front], vmap=vmap, graph_key='small22',
-                       max_paths=ctx.pick(1200, None))
+                       max_paths=ctx.pick(1200, 20000))
         for front, V in (('v2', 'v2two'), ('legacy', 'legacy')):
             cfgp = pc.mc_cfg('pit-B-defer-' + front, front, 2, 2, 'timing', V, defer='Def_both', invs=[], props=[])
-            pc.stage_b(ctx, front, cfgp, 'deferred await 2 entries MaxT=2', devs=DEVS[front], max_paths=ctx.pick(600, None))
+            pc.stage_b(ctx, front, cfgp, 'deferred await 2 entries MaxT=2', devs=DEVS[front], max_paths=ctx.pick(600, 12000))
     if 'C' in ctx.stages:
         for front in ('v2', 'legacy'):
             pc.stage_c(ctx, front, ctx.pick(300, 5000), 40, devs=DEVS[front])
